@@ -3,6 +3,7 @@ vlsir Packages -> the JSON vocabulary of spec/core/Package.tla.
 
 The builder is deliberately literal: one public API call per element of the abstract design.
 """
+import json
 from typing import Any, Dict, List, Optional
 
 PRIM_PORTS = {  # ports of hdl21 physical primitives as exported under domain hdl21.primitives
@@ -45,6 +46,8 @@ class Builder:
         self.mods: Dict[str, Any] = {}
         self.roles: Dict[str, Any] = {}
         self.foreign: Dict[Any, Any] = {}
+        self.exts: Dict[str, Any] = {}
+        self.pcalls: Dict[Any, Any] = {}
         self.keep: List[Any] = []
 
     # ---- definitions ----
@@ -103,14 +106,25 @@ class Builder:
             call = getattr(h.primitives, ref)()
         else:
             em = h.ExternalModule(name=ref, port_list=[h.Port(name=p["n"], width=p["w"]) for p in ports],
-                                  desc="leaf", domain="verif")
+                                  desc="leaf", domain="verif", paramtype=dict)
             call = em()
+            self.exts[ref] = em
         self.leaves[ref] = call
         return call
 
-    def target(self, of):
+    def leaf_with_params(self, ref, pv):
+        """a call of external leaf `ref` with parameter values pv = [[name, int], ...] (calls with equal values are shared, as designers do)"""
+        self.leaf(ref)
+        key = (ref, json.dumps(pv))
+        if key not in self.pcalls:
+            self.pcalls[key] = self.exts[ref]({n: v for n, v in pv})
+        return self.pcalls[key]
+
+    def target(self, of, pv=None):
         if of["k"] == "mod":
             return self.module(of["ref"])
+        if pv and of["ref"] not in PRIM_PORTS:
+            return self.leaf_with_params(of["ref"], pv)
         return self.leaf(of["ref"])
 
     # ---- terms ----
@@ -202,7 +216,7 @@ class Builder:
             ns[b["n"]] = self.flip_instance(b["of"], kw, b)
         insts = {}
         for i in md["insts"]:
-            tgt = self.target(i["of"])
+            tgt = self.target(i["of"], i.get("pv"))
             if i["kind"] == "inst":
                 io = h.Instance(of=tgt)
             elif i["kind"] == "array":
@@ -277,7 +291,8 @@ def proj_package(pkg, top_suffix: Optional[str] = None) -> dict:
                 if i.module.external.name not in leaves:
                     # a primitive: its terminals are those the instance connects (C06's PkgWF checks them against the spec's table)
                     leaves[i.module.external.name] = [{"n": c.portname, "w": 1} for c in i.connections]
-            insts.append({"n": i.name, "of": of, "conns": [{"p": c.portname, "t": proj_target(c.target)} for c in i.connections]})
+            insts.append({"n": i.name, "of": of, "conns": [{"p": c.portname, "t": proj_target(c.target)} for c in i.connections],
+                          "pv": [[p.name, p.value.int64_value if p.value.WhichOneof("value") == "int64_value" else -1] for p in i.parameters]})
         mods[m.name] = {"sigs": [{"n": s.name, "w": s.width} for s in m.signals],
                         "ports": [{"n": p.signal, "dir": DIRS.get(p.direction, "NONE")} for p in m.ports],
                         "insts": insts}
